@@ -45,6 +45,32 @@ def enumCall (name : String) (vals : List Nat) (graph : List (Option Nat)) (v : 
     | some none => throw .value
     | none => throw (.unsupported ("enum call outside the extracted graph: " ++ name))
 
+/-- `E(v)` for an enumeration whose members are identified with their values, given by the graph of the call
+`graph[v] = some m` (the member with value `m` is returned) / `none` (`ValueError`), extracted over `0 ≤ v < graph.length` -/
+def enumCallV (name : String) (graph : List (Option Nat)) (v : Int) : PyM Int :=
+  if v < 0 then throw (.unsupported ("enum call outside the extracted graph: " ++ name))
+  else match graph[v.toNat]? with
+    | some (some m) => pure ((m : Nat) : Int)
+    | some none => throw .value
+    | none => throw (.unsupported ("enum call outside the extracted graph: " ++ name))
+
+/-- `E((c, v))` for an enumeration whose member values are pairs `(bool, int)`: a member is represented by its NUMBER in the
+declared order; the graph of the call is extracted for `c ∈ {0, 1}` (`False == 0`, `True == 1` as dictionary keys) and
+`0 ≤ v < 16` as entry `16·c + v`: `some i` = member number `i`, `none` = `ValueError`.  Everything else is `unsupported`. -/
+def enumCallPair (name : String) (graph : List (Option Nat)) (c v : Int) : PyM Int :=
+  if c < 0 ∨ 1 < c ∨ v < 0 ∨ 15 < v then throw (.unsupported ("enum call outside the extracted graph: " ++ name))
+  else match graph[(16 * c + v).toNat]? with
+    | some (some i) => pure ((i : Nat) : Int)
+    | some none => throw .value
+    | none => throw (.unsupported ("enum call outside the extracted graph: " ++ name))
+
+/-- `member.value` of such an enumeration: the pair of member number `i` (`vals` = the member values in the declared order) -/
+def pairVal (vals : List (Bool × Nat)) (i : Int) : PyM (Bool × Int) :=
+  if i < 0 then throw (.unsupported "member number outside the value table")
+  else match vals[i.toNat]? with
+    | some (b, n) => pure (b, ((n : Nat) : Int))
+    | none => throw (.unsupported "member number outside the value table")
+
 /-- truth value of an `Optional[T]`: `None` is false, otherwise the truth value of the `T` -/
 def truthyOpt {α : Type} (f : α → Bool) : Option α → Bool
   | none => false
